@@ -37,9 +37,16 @@ InitSig(exp) == [pipe |-> FALSE, st |-> <<>>, grp |-> <<>>, usr |-> <<>>, told |
                  cur |-> None, exp |-> exp,
                  hist |-> <<>>,    \* group -> sequence of [id, src, val] : broadcast chats in the history
                  hrecv |-> <<>>,   \* client -> sequence of [id, src, val] replayed to it since it joined
-                 racing |-> {}]    \* clients whose join was sent while others were chatting (marked by the driver)
+                 racing |-> {},    \* clients whose join was sent while others were chatting (marked by the driver)
+                 maxage |-> <<>>]  \* group -> configured max-history-age in ms (absent: the default of 4 h)
 
 HistMax == 50
+DefaultAge == 14400000     \* group.DefaultMaxHistoryAge, ms
+Far == 2000000000
+\* the driver's clock around a stimulus: the server handled it no earlier than tlo and no later than thi
+TLo(m) == IF "tlo" \in DOMAIN m THEN m.tlo ELSE 0
+THi(m) == IF "thi" \in DOMAIN m THEN m.thi ELSE 0     \* no clock (the exhaustive model): every age is 0
+IsSuffixOf(a, b) == Len(a) <= Len(b) /\ a = SubSeq(b, Len(b) - Len(a) + 1, Len(b))
 LastN(sq, n) == IF Len(sq) <= n THEN sq ELSE SubSeq(sq, Len(sq) - n + 1, Len(sq))
 
 Has(f, k) == k \in DOMAIN f
@@ -90,7 +97,7 @@ OnSent(s, c, m) ==
       g == Get(s.grp, c, "")
       h0 == Get(s.hist, g, <<>>)
       h1 == IF ~auth \/ spoof THEN h0
-            ELSE IF m.type = "chat" /\ m.dest = "" THEN LastN(Append(h0, [id |-> m.id, src |-> m.source, val |-> m.value]), HistMax)
+            ELSE IF m.type = "chat" /\ m.dest = "" THEN LastN(Append(h0, [id |-> m.id, src |-> m.source, val |-> m.value, tlo |-> TLo(m), thi |-> THi(m)]), HistMax)
             ELSE IF m.type = "groupaction" /\ m.kind = "clearchat"
             THEN (IF m.clear.user = "" THEN <<>>
                   ELSE SelectSeq(h0, LAMBDA e : ~(e.src = m.clear.user /\ (m.clear.id = "" \/ e.id = m.clear.id))))
@@ -230,7 +237,16 @@ OnSettled(s) ==
   LET cur == s.cur
       joined == cur # None /\ cur.m.type = "join" /\ cur.m.kind = "join" /\ IsMember(s, cur.c)
                 /\ <<cur.c, "joined", "join">> \in cur.got
-      want == IF joined THEN Get(s.hist, Get(s.grp, cur.c, ""), <<>>) ELSE <<>>
+      gj == IF joined THEN Get(s.grp, cur.c, "") ELSE ""
+      h == IF joined THEN Get(s.hist, gj, <<>>) ELSE <<>>
+      age == Get(s.maxage, gj, DefaultAge)
+      P(e) == [id |-> e.id, src |-> e.src, val |-> e.val]
+      \* age of e when the replay was computed lies in [TLo(join) - e.thi, THi(join) - e.tlo]; kept iff age <= limit
+      expired == SelectSeq(h, LAMBDA e : TLo(cur.m) - e.thi > age)            \* certainly too old
+      may == SelectSeq(h, LAMBDA e : ~(TLo(cur.m) - e.thi > age))
+      must == SelectSeq(h, LAMBDA e : THi(cur.m) - e.tlo <= age)             \* certainly young enough
+      wantmay == [i \in 1..Len(may) |-> P(may[i])]
+      wantmust == [i \in 1..Len(must) |-> P(must[i])]
       g0 == IF joined THEN Get(s.hrecv, cur.c, <<>>) ELSE <<>>
       gotten == [i \in 1..Len(g0) |-> [id |-> g0[i].id, src |-> g0[i].src, val |-> g0[i].val]]
       \* a replay taken while others were chatting (the driver marks such joins "racing"): it must still
@@ -242,7 +258,10 @@ OnSettled(s) ==
       v |-> IF racebad THEN "C15_history_replay_not_an_in_order_run_of_the_chats"
             ELSE IF racing THEN "ok"
             ELSE IF joined /\ Len(gotten) > HistMax THEN "C15_history_longer_than_50"
-            ELSE IF joined /\ gotten # want THEN "C15_history_replay_differs_from_broadcast_chats"
+            ELSE IF joined /\ ~(IsSuffixOf(gotten, wantmay) /\ IsSuffixOf(wantmust, gotten))
+            THEN (IF \E i \in 1..Len(gotten) : \E j \in 1..Len(expired) : gotten[i] = P(expired[j])
+                  THEN "C15_history_replays_a_chat_older_than_the_configured_age"
+                  ELSE "C15_history_replay_differs_from_broadcast_chats")
             ELSE "ok"]
 
 \* the server's own member list (statistics API) against what the clients were told: a client of the
